@@ -154,6 +154,11 @@ func (f *filler) fill(v reflect.Value, depth int) {
 			ver = f.forceRS
 		}
 		recs := f.records()
+		if ver < 2 { // message formats 0 / 1 have no record headers
+			for i := range recs {
+				recs[i].Headers = nil
+			}
+		}
 		payload, err := msgs.RecordPayload(ver, cloneRecs(recs))
 		if err != nil {
 			return
